@@ -244,6 +244,8 @@ pub struct Report {
 
 impl Report {
     pub fn new(property: &str, tier: Tier, seed: i64, level: &'static str) -> Self {
+        // replay artefacts of earlier runs are stale
+        let _ = std::fs::remove_dir_all(verif_root().join("replays").join(property));
         Self {
             property: property.to_string(),
             tier,
